@@ -8,6 +8,9 @@
 (*   the sequent the checker accepted is TRUE under the meaning C05_HolArith!Val at the types that occur in   *)
 (*   it, decided with exact arithmetic; a statement with free variables is refuted by one grid point           *)
 (*   where it is false (agreement on the whole grid is only "not refuted").                                    *)
+(*   Comparisons of irrational constants of the form  q + c * sqrt r  (sqrt (10^40 + 1) = sqrt (10^40), ...)    *)
+(*   are inside the exact fragment: C05_HolArith!SVal / C05_Surd!SCmp decide them by squaring in rational        *)
+(*   limb arithmetic, so a step that accepts one on the strength of a floating-point evaluation is judged.       *)
 (* Not examined (never judged): statements outside the exact fragment (NA).                                    *)
 (* Divergence (informational): a TRUE statement asserted by a step it is not meant for (wrong type/shape),     *)
 (*   a conclusion that is not the goal asked (or its documented form), a foreign exception.                    *)
